@@ -58,10 +58,15 @@ pub fn add_re<A>(
         }
 
         Regex::CharSet(set) => {
+            // A character may be listed more than once (e.g. `['a' 'a']`), add it only once
+            let mut seen: Vec<char> = vec![];
             for char in &set.0 {
                 match char {
                     CharOrRange::Char(char) => {
-                        nfa.add_char_transition(current, *char, cont);
+                        if !seen.contains(char) {
+                            seen.push(*char);
+                            nfa.add_char_transition(current, *char, cont);
+                        }
                     }
                     CharOrRange::Range(range_start, range_end) => {
                         nfa.add_range_transition(current, *range_start, *range_end, cont);
